@@ -138,13 +138,33 @@ func (s *Server) serve(ctx context.Context, listener net.Listener, handler Modbu
 		s.OnServeFunc(listener.Addr())
 	}
 
+	// Accept does not know about the context. Close the listener when context ends, so that serving ends
+	// without having to wait for next connection to arrive.
+	serveDone := make(chan struct{})
+	defer close(serveDone)
+	go func() {
+		select {
+		case <-ctx.Done():
+			_ = l.Close()
+		case <-serveDone:
+		}
+	}()
+
 	for {
 		netConn, err := l.Accept()
 		if err != nil {
-			if s.isShutdown.Load() {
+			if s.isShutdown.Load() || ctx.Err() != nil {
 				return ErrServerClosed
 			}
 			return err
+		}
+
+		select {
+		case <-ctx.Done():
+			// connection that arrives when serving has ended is not served, not reported to callbacks and must not be leaked
+			_ = netConn.Close()
+			return ErrServerClosed
+		default:
 		}
 
 		if s.OnAcceptConnFunc != nil {
@@ -154,12 +174,6 @@ func (s *Server) serve(ctx context.Context, listener net.Listener, handler Modbu
 				}
 				continue
 			}
-		}
-
-		select {
-		case <-ctx.Done():
-			return ErrServerClosed
-		default:
 		}
 
 		cCtx := context.WithValue(ctx, ContextRemoteAddr{}, netConn.RemoteAddr())
